@@ -3,7 +3,8 @@ from .common import *
 from .geomgen import *
 
 ID = "C02"
-PROPS_FILES = ["Props/C02"]
+PROPS_FILES = ["Props/C02", "Props/FixedPoint"]
+FRAGMENTS = ["fixed-point"]
 TRUSTED = [
     "Coq 8.16.1 kernel; Flocq 4.1.0 (f32 -> FDot6 conversion, conservative rounding in f64)",
     "hand-written bit-exact Model/Edge.v (LineEdge::new, fixed-point helpers, vertical-edge merging) and Model/Walk.v (sort, walk_edges, insert_new_edges, ripple) tied by bit-exact span correspondence through the recording-blitter hook",
